@@ -247,6 +247,9 @@ def events(A, f: Func) -> List[Ev]:
             ast.fix_missing_locations(st)
             ci = CallInfo(tgt, [A.prog.func(q)], 'setter', True, ty or 'Task', prop)
             out.append(Ev('setter', tgt, cfg.node_of(n) or cfg.node_containing(c), prop, ci=ci, stmt=st))
+    # the property speaks about calls that RETURN: what happens on a path that can only end in a raise (a rollback in an
+    # `except ...: ...; raise` handler, clean-up before an error) is the subject of C15, not an effect of an accepted call
+    out = [e for e in out if e.cn is None or e.cn is cfg.exit or cfg.can_reach(e.cn, cfg.exit)]
     return out
 
 
@@ -966,7 +969,7 @@ def wiring(a: A, ctx):
                 if cbf is None:
                     o.undecided(g, rets[0], rets[0], "publish callback of the children facade is not a method of the task")
                     continue
-                sts = facts.attr_stores(cbf)
+                sts = [x for x in facts.attr_stores(cbf) if x[1].attr in REL_FIELDS]     # other fields (caches) are not relations
                 cws = [w for w in a.eff.direct_writes(cbf) if w.field in REL_FIELDS]
                 if len(sts) == 1 and len(cws) == 1 and a.is_self_attr(cbf, sts[0][1], fld) and a.is_param(cbf, sts[0][2], 1):
                     o.site(cbf, sts[0][0], 'publish callback stores the list it is given')
